@@ -413,23 +413,31 @@ op_rule!(op_1_5, op_2, alt((tag("^^"), tag_no_case("xor"))));
 op_rule!(op_1, op_1_5, alt((tag("||"), tag_no_case("or"))));
 
 rule!(op_if(i) -> Value, {
-    map(
-        alt((
+    alt((
+        map(
             nom_tuple((
                 preceded(tag("if"),op_0),
                 preceded(ws(tag("then")),op_0),
                 preceded(ws(tag("else")),op_0),
-            )) ,
+            )),
+            |(cond, yes, no)| If::make_call(cond, yes, no).into()
+        ),
+        // `a ? b : c` or just `a`: the condition is parsed once. Trying the conditional form first and the
+        // plain form again on failure parsed every parenthesised sub-expression twice, i.e. 2^depth times.
+        map(
             nom_tuple((
-                terminated(op_1,ws(tag("?"))),
-                terminated(op_0,ws(tag(":"))),
-                op_0
-            )) ,
-        )),
-        |(cond, yes, no)| {
-            If::make_call(cond, yes, no).into()
-        }
-    )
+                op_1,
+                opt(nom_tuple((
+                    preceded(ws(tag("?")), op_0),
+                    preceded(ws(tag(":")), op_0),
+                )))
+            )),
+            |(cond, rest)| match rest {
+                Some((yes, no)) => If::make_call(cond, yes, no).into(),
+                None => cond,
+            }
+        ),
+    ))
 });
 
 rule!(op_assign -> Value, {
@@ -456,9 +464,8 @@ rule!(op_let -> Value, {
 
 rule!(op_0 -> Value, {
     alt((
-        op_if,
         op_let,
-        op_1
+        op_if,
     ))
 });
 
